@@ -9,6 +9,7 @@ import (
 	"go/constant"
 	"go/token"
 	"go/types"
+	"os"
 	"slices"
 	"strings"
 
@@ -325,6 +326,18 @@ func visitInstr(fr *frame, instr ssa.Instruction) continuation {
 			fr.env[instr] = addr
 		} else {
 			addr = fr.env[instr].(*value)
+		}
+		if os.Getenv("GOSMT_DEBUGALLOC") != "" {
+			if a, ok := derefT(instr.Type()).Underlying().(*types.Array); ok && a.Len() > 1000 {
+				fmt.Fprintf(os.Stderr, "BIG ALLOC %v in %s\n", instr.Type(), fr.fn)
+			}
+		}
+		if a, ok := derefT(instr.Type()).Underlying().(*types.Array); ok && a.Len() > 65536 {
+			if eb, ok := a.Elem().Underlying().(*types.Basic); ok && eb.Kind() == types.Uint8 {
+				// backing array of a large byte buffer (make([]byte, 0, 4 MiB)): contents are modelled by the gob/bytes stubs
+				*addr = &ghostBytes{}
+				break
+			}
 		}
 		*addr = zero(derefT(instr.Type()))
 
@@ -827,6 +840,9 @@ func (fr *frame) slice(instr *ssa.Slice, x, lo, hi, max value) value {
 	case *value:
 		if x == nil {
 			panic(m.runtimeError("nil pointer dereference in slice expr"))
+		}
+		if g, ok := (*x).(*ghostBytes); ok {
+			return g
 		}
 		a := (*x).(array)
 		l := ci(lo, 0)
